@@ -42,12 +42,14 @@ def history_case(n, init, calls, via_build):
 ALPHA = [c for c in range(32, 127) if c not in (60, 62)] + [0xC3, 0xA9]  # printable ASCII without < >; 'é' bytes appended below
 
 
-def rtext(rng, lo, hi):
+def rtext(rng, lo, hi, tab=0.0):
     n = rng.randint(lo, hi)
     out = []
     for _ in range(n):
         r = rng.random()
-        if r < 0.06:
+        if r < tab:
+            out.append(9)                       # TAB: allowed inside category names and values, not in keys
+        elif r < 0.06:
             out += list("é".encode())          # 2-byte UTF-8
         elif r < 0.09:
             out += list("日".encode())          # 3-byte UTF-8
@@ -62,7 +64,7 @@ def random_cfg(rng):
     cats = []
     keypool = [rtext(rng, 0 if rng.random() < 0.1 else 1, 12) for _ in range(rng.randint(1, 8))]
     for _ in range(ncat):
-        nm = rtext(rng, 1, 16)
+        nm = rtext(rng, 1, 16, tab=0.04 if rng.random() < 0.3 else 0.0)
         if tuple(nm) in names:
             continue
         names.add(tuple(nm))
@@ -70,7 +72,7 @@ def random_cfg(rng):
         pairs = []
         for _ in range(nl):
             k = rng.choice(keypool) if rng.random() < 0.6 else rtext(rng, 1, 10)
-            pairs.append([k, rtext(rng, 0, 10)])
+            pairs.append([k, rtext(rng, 0, 10, tab=0.04 if rng.random() < 0.3 else 0.0)])
         cats.append({"name": nm, "pairs": pairs})
     return cats, keypool
 
@@ -82,7 +84,7 @@ def random_history(rng, n):
     for _ in range(rng.randint(1, 8)):
         r = rng.random()
         if r < 0.45:
-            calls.append({"op": "set", "key": rng.choice(keypool), "val": rtext(rng, 0, 8)})
+            calls.append({"op": "set", "key": rng.choice(keypool), "val": rtext(rng, 0, 8, tab=0.04 if rng.random() < 0.3 else 0.0)})
         elif r < 0.6:
             calls.append({"op": "haskey", "key": rng.choice(keypool)})
         elif r < 0.8:
@@ -177,7 +179,7 @@ def check(run):
                 "distinct by script content, non-trivial when the configuration is non-empty and at least one call follows")
     run.exhaustive = False
     run.conform(cases, MODULE, CFG)
-    run.assumptions = ["category names are distinct and text is free of < > TAB CR LF NUL (the property's quantifier)"]
+    run.assumptions = ["category names are distinct, text is free of < > CR LF NUL and keys of TAB (the property's quantifier); names and values may hold TABs"]
 
 
 def replay(run, rp):
